@@ -623,6 +623,58 @@ def validate(traces, layer, nm):
                            shards=shards, name="tv%s-%s" % (layer, nm), timeout=2400)
 
 
+def planted(recs):
+    """Self-test of the trace specification: copies of real records with one planted fault each must be rejected
+    with the named clause (a trace specification that accepts everything would make the whole check vacuous)."""
+    import copy
+
+    def first(pred):
+        for r in recs:
+            if pred(r):
+                return copy.deepcopy(r)
+        raise MachineryError("no record to plant a fault in")
+    flip = lambda bits, k=-1: bits[:k] + [1 - bits[k]] + (bits[k + 1:] if k != -1 else [])
+    out = []
+    small = lambda r: r["k"] == "ffx" and r["rec"] and 5 <= r["n"] <= 40 and r["eo"] == "ok" and r["do"] == "ok"
+    r = first(small); r["z"] = flip(r["z"]); out.append((r, "A", "ffx:inverse"))
+    r = first(small); r["y"] = r["y"] + [0]; out.append((r, "A", "ffx:length"))
+    r = first(small); r["eo"] = "raised"; out.append((r, "A", "ffx:encrypt-raised"))
+    r = first(small); r["y"] = flip(r["y"]); out.append((r, "B", "wiring:encrypt"))
+    r = first(small); r["er"] = r["er"][:-1]; out.append((r, "B", "wiring:round-count"))
+    r = first(small); r["er"][0]["o"] = r["er"][0]["o"] + [1]; out.append((r, "B", "round:width"))
+    tab = lambda r: r["k"] == "table" and r["n"] == 4 and r["inv"]
+    r = first(tab); r["rows"][0]["y"] = r["rows"][1]["y"]; out.append((r, "A", "table:injective"))
+    r = first(tab); r["rows"][0]["z"] = flip(r["rows"][0]["z"]); out.append((r, "A", "table:inverse"))
+    r = first(tab); r["rows"][0]["y"] = r["rows"][0]["y"][:-1]; out.append((r, "A", "table:length"))
+    r = first(lambda r: r["k"] == "prp" and r["out"] == "raised"); r["out"] = "ok"; out.append((r, "A", "prp:contract"))
+    r = first(lambda r: r["k"] == "prp" and r["out"] == "ok"); r["y"] = r["y"][1:]; out.append((r, "A", "prp:length"))
+    r = first(lambda r: r["k"] == "lr" and r["out"] == "raised"); r["out"] = "ok"; out.append((r, "A", "lr:contract"))
+    r = first(lambda r: r["k"] == "lr" and r["out"] == "ok"); r["y"] = r["y"] + [0]; out.append((r, "A", "lr:length"))
+    lrrec = lambda r: r["k"] == "lr" and r["rec"] and r["out"] == "ok" and r["klen"] >= 24
+    r = first(lrrec); r["prf"][1]["k"], r["prf"][2]["k"] = r["prf"][2]["k"], r["prf"][1]["k"]
+    out.append((r, "B", "wiring:lr"))
+    r = first(lrrec); r["y"] = r["y"][:-1] + [r["y"][-1] ^ 1]; out.append((r, "B", "wiring:lr"))
+    r = first(lambda r: r["k"] == "inj" and r["unit"] == "byte"); r["rows"][3]["y"] = r["rows"][5]["y"]
+    out.append((r, "A", "inj:injective"))
+    r = first(lambda r: r["k"] == "inj" and r["unit"] == "bit"); r["rows"][0]["y"] = r["rows"][0]["y"] + [1]
+    out.append((r, "A", "inj:length"))
+    r = first(lambda r: r["k"] == "round" and r["out"] == "ok" and r["w"] > 160); r["o"] = flip(r["o"])
+    out.append((r, "B", "round:expansion"))
+    return out
+
+
+def check_planted(recs):
+    pl = planted(recs)
+    for layer in ("A", "B"):
+        sel = [(k, x) for k, x in enumerate(pl) if x[1] == layer]
+        v, _ = validate([{"tid": "p%d" % k, "ev": [x[0]]} for k, x in sel], layer, "planted")
+        for k, x in sel:
+            got = v["p%d" % k]
+            if got["ok"] or got["clause"] != x[2]:
+                raise MachineryError("trace specification self-test: planted fault %s (layer %s) judged %r" % (x[2], layer, got))
+    return len(pl)
+
+
 def has_wiring(rec):
     return rec["k"] == "round" or (rec["k"] in ("ffx", "prp", "lr") and rec.get("rec"))
 
@@ -683,8 +735,11 @@ def main(argv_tier=None, replay_path=None):
     tb = threading.Thread(target=tv, args=("B", wired))
     ta.start()
     tb.start()
-    ta.join()
-    tb.join()
+    try:
+        nplanted = check_planted(recs)
+    finally:
+        ta.join()
+        tb.join()
     for t in ths:
         t.join()
     for layer in ("A", "B"):
@@ -746,6 +801,7 @@ def main(argv_tier=None, replay_path=None):
         "model_instances": summary,
         "traces_validated_against_impl": len(traces),
         "traces_validated_layer_b": len(wired),
+        "planted_faults_rejected": nplanted,
         "trace_validation_states": agg_a["distinct"] + agg_b["distinct"],
         "evaluations": len(cases), "real_calls": calls, "distinct_nontrivial": distinct,
         "records_by_kind": kinds, "refusals_observed": refused,
